@@ -16,7 +16,7 @@ class C05(F.Spec):
             "challenge) at every window boundary +-1, compared with the Lean model; (b) whole scenarios in simulated time: "
             "registered device, T in 10..240, server answering pings or falling silent at a random instant, with a "
             "monitor for 'a frame in every T window', 'reconnect <= T+11 s', 'restart <= 62 s', 'no reconnect/restart "
-            "for T<=50 while answered'. Non-trivial: a ping/reconnect/restart happened; distinct = (decision, T class).")
+            "for T<=50 while answered'; in part of the scenarios espconn_sent refuses a send once (INPROGRESS/MAXNUM) and accepts the retry. Non-trivial: a ping/reconnect/restart happened; distinct = (decision, T class).")
     assumptions = ["the 1 s timers fire with less than one period of jitter (each uptime second is sampled)",
                    "the server's answer to a ping is delivered within 1 s in the 'prompt server' scenarios"]
 
@@ -26,6 +26,18 @@ class C05(F.Spec):
             yield self.gen_ticks(rng, i)
         for i in range(30 if tier == "quick" else 300):
             yield self.gen_scenario(rng, i)
+        # the T+11 s bound at every phase of the last received message against the 1 s timer (100 ms steps)
+        for T in (10, 20, 50):
+            for tp in (0, 500, 900):          # phase of the 1 s timers against the uptime seconds
+                for ph in range(10):          # phase of the last received message
+                    ops = ["board relay1", "boot %d" % (tp * 1000 + 1), "init", "sentbytes 1", "msg 220 %02x0af0" % T]
+                    for _ in range(8):
+                        ops += ["adv 1000", "pingreply"]
+                    ops += ["adv %d" % (ph * 100), "pingreply force"] if ph else ["pingreply force"]
+                    ops += ["adv 100"] * ((T + 13) * 10)
+                    yield F.Case("edge-T%d-tp%d-ph%d" % (T, tp, ph), ops,
+                                 {"tags": ["kind:edge", "T:%d" % T], "kind": "scenario", "T": T, "silent_at": 10, "tight": 1,
+                                  "noshrink": 1})
 
     def gen_ticks(self, rng, i):
         ops = ["board relay1", "init"]
@@ -49,14 +61,21 @@ class C05(F.Spec):
     def gen_scenario(self, rng, i):
         T = rng.choice([10, 10, 20, 50, 51, 120, 240])
         silent_at = rng.choice([None, None, rng.randint(5, 120)])
-        ops = ["board relay1", "init", "sentbytes 1", "msg 220 %02x0af0" % T]
+        # the boot value of the microsecond counter sets the phase of the 1 s timers against the uptime seconds
+        ops = ["board relay1", "boot %d" % rng.choice([1, rng.randint(1, 999999), 950000]), "init", "sentbytes 1",
+               "msg 220 %02x0af0" % T]
         t = 0
         end = 150000
         # arbitrary local traffic: the device keeps sending channel values the server does not answer; only pings are answered
         traffic = rng.choice([0, 0, 1500, 2500, 4000])
         next_tx = traffic
+        # a network layer that refuses a send once (operation in progress / queue full) and accepts the retry of the
+        # parked bytes: the device's own delayed transmissions must not count as server activity
+        flaky = rng.choice([0, 0, .3, 1.0])
         while t < end:
             step = rng.choice([100, 300, 700, 1000])
+            if flaky and rng.random() < flaky:
+                ops += ["espclear", "esp %d" % rng.choice([-5, -7])]
             ops.append("adv %d" % step)
             t += step
             if traffic and t >= next_tx:
@@ -65,7 +84,7 @@ class C05(F.Spec):
             if silent_at is None or t < silent_at * 1000:
                 ops.append("pingreply")          # the driver answers a pending ping (see harness)
         return F.Case("scen%d-T%d-%s%s" % (i, T, "silent" if silent_at else "ok", "-traffic" if traffic else ""), ops,
-                      {"tags": ["kind:scenario", "T:%d" % T, "traffic:%d" % (1 if traffic else 0)], "kind": "scenario", "T": T,
+                      {"tags": ["kind:scenario", "T:%d" % T, "traffic:%d" % (1 if traffic else 0), "flaky:%s" % flaky], "kind": "scenario", "T": T,
                        "silent_at": silent_at})
 
     def derive_model(self, case, raw):
@@ -118,12 +137,13 @@ class C05(F.Spec):
                 fs.append(F.Finding("late-watchdog-restart", "T=%d: restart %d ms after the last received message" % (T, t_restart - last_rx)))
             elif t_restart is not None and t_restart - last_rx < 60 * 1000 - 1100:
                 fs.append(F.Finding("early-watchdog-restart", "T=%d: restart only %d ms after the last received message" % (T, t_restart - last_rx)))
+        slack = 100 if case.meta.get("tight") else 1100   # granularity of the time steps in the case
         if case.meta.get("silent_at") is not None and recovered is None:
-            bound = min(T + 11, 62) * 1000 + 1100
+            bound = min(T + 11, 62) * 1000 + slack
             if now - last_rx > bound:
                 fs.append(F.Finding("no-recovery", "T=%d: server silent for %d ms and neither reconnect nor restart happened" % (T, now - last_rx)))
         elif recovered is not None and case.meta.get("silent_at") is not None:
-            bound = min(T + 11, 62) * 1000 + 1100
+            bound = min(T + 11, 62) * 1000 + slack
             if recovered - last_rx > bound and last_rx <= case.meta["silent_at"] * 1000:
                 fs.append(F.Finding("late-recovery", "T=%d: recovery %d ms after the last received message (bound %d)" % (T, recovered - last_rx, bound)))
         return fs
